@@ -5,7 +5,7 @@
    so every theorem below holds for EVERY iteration order CPython may choose. *)
 From Coq Require Import ZArith List String Bool Permutation.
 From Model Require Import PyBase Graph Compose RxnSmiles.
-From Proofs Require Import ComposeProofs RxnSmilesProofs.
+From Proofs Require Import ComposeProofs RxnComposeProofs RxnSmilesProofs.
 Import ListNotations.
 Open Scope Z_scope.
 
@@ -62,11 +62,11 @@ Print Assumptions C15_compose_dynamic_balanced.
 
 (* ... which is false without that restriction (documented convention of compose: bonds between two atoms that exist
    on one side only are copied unchanged) *)
-Theorem C15_compose_dynamic_naive_refuted :
+Theorem C15_compose_unbalanced_convention :
   exists r p h n m, wf_mol r = true /\ wf_mol p = true /\ compose r p = Ok h /\
     ord_in r n m <> ord_in p n m /\ ~ is_dynamic_bond h n m.
-Proof. exact compose_dynamic_naive_refuted. Qed.
-Print Assumptions C15_compose_dynamic_naive_refuted.
+Proof. exact compose_unbalanced_convention. Qed.
+Print Assumptions C15_compose_unbalanced_convention.
 
 (* the result is a well-formed symmetric dict of dicts *)
 Theorem C15_compose_symmetric_wf : forall r p o1 o2 o3 h,
@@ -110,6 +110,54 @@ Theorem C15_compose_example :
              list_eqb Z.eqb (center_atoms h) [3; 1; 2] = true).
 Proof. exact compose_example. Qed.
 Print Assumptions C15_compose_example.
+
+(* ---- ReactionContainer.compose ---- *)
+(* mapped_reaction rs gs ps: every molecule is well formed and, within each side (reagents + reactants / products), the
+   molecules carry pairwise disjoint atom numbers.  Then reduce(or_, ...) never renumbers: each side is the plain
+   concatenation of the atom and adjacency dicts (left_side / right_side), it is well formed, and
+   ReactionContainer.compose is MoleculeContainer.compose of the two concatenations *)
+Theorem C15_union_all_disjoint : forall l, all_wf l -> pairwise_disjoint l -> union_all l = cat_mols l /\ wf_mol (cat_mols l) = true.
+Proof. exact union_all_disjoint. Qed.
+Print Assumptions C15_union_all_disjoint.
+
+(* an atom / bond of a side is the atom / bond of the molecule that holds it *)
+Theorem C15_cat_mols_lookup : forall l, all_wf l -> pairwise_disjoint l -> forall g n, In g l -> In n (ids g) ->
+  atom_of (cat_mols l) n = atom_of g n /\ forall m, bond_of (cat_mols l) n m = bond_of g n m.
+Proof. exact cat_mols_lookup. Qed.
+Print Assumptions C15_cat_mols_lookup.
+
+Theorem C15_rxn_compose_is_compose : forall rs gs ps o1 o2 o3, mapped_reaction rs gs ps ->
+  rxn_compose_ord o1 o2 o3 rs gs ps = compose_ord o1 o2 o3 (left_side rs gs) (right_side ps) /\
+  wf_mol (left_side rs gs) = true /\ wf_mol (right_side ps) = true.
+Proof. exact rxn_compose_is_compose. Qed.
+Print Assumptions C15_rxn_compose_is_compose.
+
+(* the condensed graph of a reaction marks a bond / an atom as dynamic exactly where the two sides differ, and its centre is
+   the dynamic atoms plus the ends of the dynamic bonds *)
+Theorem C15_rxn_compose_dynamic_iff : forall rs gs ps o1 o2 o3 h, mapped_reaction rs gs ps ->
+  orders_ok (left_side rs gs) (right_side ps) o1 o2 o3 -> rxn_compose_ord o1 o2 o3 rs gs ps = Ok h ->
+  (forall n m, is_dynamic_bond h n m <->
+               ord_in (left_side rs gs) n m <> ord_in (right_side ps) n m /\
+               (is_common (left_side rs gs) (right_side ps) n = true \/ is_common (left_side rs gs) (right_side ps) m = true)) /\
+  (forall n, is_dynamic_atom h n <->
+             exists a b, atom_of (left_side rs gs) n = Some a /\ atom_of (right_side ps) n = Some b /\ (a_chg a <> a_chg b \/ a_rad a <> a_rad b)) /\
+  (forall n, In n (center_atoms h) <-> is_dynamic_atom h n \/ exists m, is_dynamic_bond h n m).
+Proof. exact rxn_compose_dynamic_iff. Qed.
+Print Assumptions C15_rxn_compose_dynamic_iff.
+
+(* a reaction with identical sides (any number of molecules, no reagents) has no reaction centre *)
+Theorem C15_rxn_compose_identity_no_center : forall ms o1 o2 o3, all_wf ms -> pairwise_disjoint ms ->
+  orders_ok (cat_mols ms) (cat_mols ms) o1 o2 o3 ->
+  exists h, rxn_compose_ord o1 o2 o3 ms [] ms = Ok h /\ center_atoms h = [] /\
+            (forall n, ~ is_dynamic_atom h n) /\ (forall n m, ~ is_dynamic_bond h n m).
+Proof. exact rxn_compose_identity_no_center. Qed.
+Print Assumptions C15_rxn_compose_identity_no_center.
+
+Theorem C15_rxn_compose_example :
+  mapped_reaction [ex_etoh; ex_water] [] [ex_eto; ex_water] /\
+  exists h, rxn_compose [ex_etoh; ex_water] [] [ex_eto; ex_water] = Ok h /\ list_eqb Z.eqb (center_atoms h) [3] = true.
+Proof. exact rxn_compose_example. Qed.
+Print Assumptions C15_rxn_compose_example.
 
 (* ---- reaction string ---- *)
 (* any permutation of the molecules inside the roles gives the same string.  ncomp_det l: two molecules of l with the
